@@ -66,7 +66,8 @@ def shard(ctx):
             jobs.append(("frontier", "exe-%s-%s" % (where, "terminated" if term else "unterminated"), seeds.build_exe(rng, where=where, terminated=term), {}))
     jobs.append(("frontier", "exe-old-url", seeds.build_exe(rng, needle="https://frontier.ffxiv.com", tail="/version_5_0_win/index.html"), {}))
     mine = [j for i, j in enumerate(jobs) if i % ctx.nshards == ctx.index] + [jobs[(ctx.index * 5 + 3) % len(jobs)]]
-    if P.get("cap") is None:
+    if P.get("cap") is None and ctx.variant != "asan":
+        # (not under ASan: its 2-4 x slowdown would leave too little margin between the cost of the intact files and the CPU budget)
         large = seeds.seeds_large(rng)
         for k, (kind, lab, data) in enumerate(large):
             if k % ctx.nshards == ctx.index % max(1, min(ctx.nshards, len(large))):
